@@ -32,6 +32,12 @@ func anp(name string, prio int) *wm.ANP {
 	return &wm.ANP{Name: name, Prio: prio, Subject: wm.APeer{Namespaces: all}, Ingress: []wm.ARule{r}}
 }
 
+// bare: an admin policy with priority and subject only (no rules at all): valid, and as much a party to a conflict as any other
+func bare(a *wm.ANP) *wm.ANP {
+	a.Ingress, a.Egress = nil, nil
+	return a
+}
+
 func workloads() []*resource.Info {
 	return []*resource.Info{
 		wm.InfoWorkload(wm.Workload{Kind: "Deployment", NS: "ns1", Name: "w1", Labels: map[string]string{"app": "a"}, Replicas: 1}),
@@ -188,15 +194,20 @@ func Run(r *fw.Run) {
 			c.Skip()
 		}
 		p := permFromChoices(c, n)
+		ruleless := n <= 4 && c.Choose(2, "conflicting policies: with rules | without any rule") == 1
 		for _, i := range p {
 			prio := 10 * (i + 1)
 			if i == 1 {
 				prio = 10
 			}
-			infos = append(infos, wm.InfoANP(anp(fmt.Sprintf("pol-%02d", i), prio)))
+			a := anp(fmt.Sprintf("pol-%02d", i), prio)
+			if ruleless && i <= 1 {
+				a = bare(a)
+			}
+			infos = append(infos, wm.InfoANP(a))
 		}
 		infos = append(infos, after...)
-		return Case{Infos: infos, Expect: []string{"pol-00", "pol-01", "same priority"}, Desc: fmt.Sprintf("equal-priority n=%d order=%v surroundings=%s", n, p, sn)}
+		return Case{Infos: infos, Expect: []string{"pol-00", "pol-01", "same priority"}, Desc: fmt.Sprintf("equal-priority n=%d order=%v surroundings=%s ruleless=%v", n, p, sn, ruleless)}
 	}, eval)
 
 	// (ii) large n: every position pair over base orders
@@ -240,15 +251,20 @@ func Run(r *fw.Run) {
 		if sn != surroundNames[0] && (n > 5 || b > 1) {
 			c.Skip()
 		}
+		ruleless := n <= 5 && c.Choose(2, "offending policy: with rules | without any rule") == 1
 		for pos, v := range orders[b] {
 			prio := 10 + v
+			a := anp(fmt.Sprintf("pol-%02d", pos), prio)
 			if pos == j {
-				prio = bad
+				a.Prio = bad
+				if ruleless {
+					a = bare(a)
+				}
 			}
-			infos = append(infos, wm.InfoANP(anp(fmt.Sprintf("pol-%02d", pos), prio)))
+			infos = append(infos, wm.InfoANP(a))
 		}
 		infos = append(infos, after...)
-		return Case{Infos: infos, Expect: []string{fmt.Sprintf("pol-%02d", j), fmt.Sprint(bad), "Priority"}, Desc: fmt.Sprintf("priority-range n=%d base=%s position=%d value=%d surroundings=%s", n, names[b], j, bad, sn)}
+		return Case{Infos: infos, Expect: []string{fmt.Sprintf("pol-%02d", j), fmt.Sprint(bad), "Priority"}, Desc: fmt.Sprintf("priority-range n=%d base=%s position=%d value=%d surroundings=%s ruleless=%v", n, names[b], j, bad, sn, ruleless)}
 	}, eval)
 
 	// (iv) duplicates among 0..12 other documents at every pair of positions
@@ -321,6 +337,10 @@ func Run(r *fw.Run) {
 		{name: "duplicate-netpol-name-same-uid", a: npU("ns1", "dupnp", 80, "uid-1"), b: npU("ns1", "dupnp", 81, "uid-1"), expect: []string{"dupnp", "NetworkPolicy"}, noAdmin: true},
 		{name: "duplicate-netpol-name-different-uid", a: npU("ns1", "dupnp", 80, "uid-1"), b: npU("ns1", "dupnp", 81, "uid-2"), expect: []string{"dupnp", "NetworkPolicy"}, noAdmin: true},
 		{name: "control-same-netpol-name-other-namespace", a: npA("ns1", "dupnp", 80), b: npA("ns2", "dupnp", 81), expect: nil, noAdmin: true},
+		{name: "duplicate-anp-name-without-rules", a: func() *resource.Info { return wm.InfoANP(bare(anp("dup", 1))) }, b: func() *resource.Info { return wm.InfoANP(bare(anp("dup", 2))) }, expect: []string{"dup", "AdminNetworkPolicy"}},
+		{name: "duplicate-anp-name-one-without-rules", a: func() *resource.Info { return wm.InfoANP(anp("dup", 1)) }, b: func() *resource.Info { return wm.InfoANP(bare(anp("dup", 2))) }, expect: []string{"dup", "AdminNetworkPolicy"}},
+		{name: "two-banps-one-without-rules", a: func() *resource.Info { return wm.InfoBANP(banp(), "default") }, b: func() *resource.Info { return wm.InfoBANP(bare(banp()), "default") }, expect: []string{"baseline admin network policy"}},
+		{name: "banp-not-named-default-without-rules", a: func() *resource.Info { return wm.InfoBANP(bare(banp()), "baseline") }, expect: []string{"default"}, single: true},
 		{name: "two-banps", a: func() *resource.Info { return wm.InfoBANP(banp(), "default") }, b: func() *resource.Info { return wm.InfoBANP(banp(), "default") }, expect: []string{"baseline admin network policy"}},
 		{name: "banp-not-named-default", a: func() *resource.Info { return wm.InfoBANP(banp(), "baseline") }, expect: []string{"default"}, single: true},
 	}
